@@ -140,6 +140,18 @@ func runConcRoute(fields []string) string {
 			return "I=setup-error"
 		}
 	}
+	// ... and 150 more siblings with first bytes from the whole byte alphabet: the contended keys hang below a node whose
+	// edges are searched by bisection, with index sums above 128
+	nw := 0
+	for b := 1; b < 256 && nw < 150; b++ {
+		if strings.IndexByte("/*{}k0", byte(b)) >= 0 {
+			continue
+		}
+		if _, err := f.Handle("GET", "/cr/"+string([]byte{byte(b)})+"q", okHandler); err != nil {
+			return "I=setup-error"
+		}
+		nw++
+	}
 	var clock atomic.Int64
 	var hidSeq atomic.Int64
 	overlapped := 0
